@@ -506,6 +506,10 @@ func init() {
 			}
 			return "false"
 		}
+		wcLookup, err := wildcardCtxLookup(repo)
+		if err != nil {
+			return Result{}, err
+		}
 		var sb strings.Builder
 		sb.WriteString(genHeader)
 		sb.WriteString("namespace OpenFGAVerif.Gen.CheckV2\n\n")
@@ -554,6 +558,7 @@ func init() {
 		w("visitedKeyReturns", "return statements of the key function of the visited filter in buildIterator", keyReturns)
 		w("buildIteratorCallers", "callers of buildIterator with their last argument (visited set, or the key suffix)", biCallers)
 		w("recursiveMapperCalls", "Recursive.buildTupleMapperForID: Concat / visited filter / condition filter in the order applied", recFilterOrder)
+		w("wildcardCtxLookup", "specificTypeWildcard: control skeleton of the lookup of the typed wildcard among the contextual tuples", wcLookup)
 		sb.WriteString("def visitedFilterIsLoadOrStore : Bool := " + b(visitedLoadOrStore) + "\n")
 		sb.WriteString("\nend OpenFGAVerif.Gen.CheckV2\n")
 		return Result{Lean: sb.String(), Summary: map[string]interface{}{
